@@ -190,6 +190,13 @@ theorem multipart_roundtrip_exact (b : Bytes) (fields : List (Bytes × Bytes)) (
   intro f hf
   simp [fileItem, arrive_safe _ (hsafe f hf).1, arrive_safe _ (hsafe f hf).2]
 
+/-- The hypothesis `BoundaryFree` of `multipart_roundtrip` in plain words: it holds whenever
+the delimiter (CRLF `--` boundary) does not occur in CRLF ++ content and the boundary has no
+CR — which is what "the boundary does not occur in the data" means for a multipart body. -/
+theorem boundary_free_of_absent (b content : Bytes) (hcr : (13 : UInt8) ∉ b)
+    (h : ¬ (delim b) <:+: (crlf ++ content)) : BoundaryFree (delim b) (crlf ++ content) :=
+  boundaryFree_of_not_infix b (crlf ++ content) hcr h
+
 /-- A boundary accepted by `Writer.SetBoundary` contains no LF. -/
 theorem validBoundary_no_lf (b : Bytes) (h : validBoundary b = true) : (10 : UInt8) ∉ b := by
   intro hm
